@@ -459,7 +459,7 @@ pub static C18: PropSpec = PropSpec {
     runs: |t| if t == Tier::Thorough { 30_000_000 } else { 300_000 },
     enumerated: |_| 0,
     run: run_c18,
-    rule: "the C05 space plus the scheduler action 'drop reply future j' (1-2 drops per run) enabled at every step for every future living in its own task - i.e. at each of its suspension points - and 'drop unpolled'; afterwards one more request is issued. One run in 64 uses the real TLS / SSH / local transport against the scripted peer instead (R-sim): 2-4 pipelined requests, replies in a seeded order and cut into 1-3 chunks, the task awaiting one or two of the replies aborted between two chunks (inside the transport read if it is the reader); survivors must get their own replies and one more request must work. Non-trivial = at least one future was dropped; distinct = distinct event-log hash",
+    rule: "the C05 space plus the scheduler action 'drop reply future j' (1-2 drops per run) enabled at every step for every future living in its own task - i.e. at each of its suspension points - and 'drop unpolled'; afterwards one more request is issued. One run in 64 uses the real TLS / SSH / local transport against the scripted peer instead (R-sim): 2-4 pipelined requests, replies in a seeded order and cut into 1-3 chunks, the task awaiting one or two of the replies aborted between two chunks (inside the transport read if it is the reader); survivors must get their own replies and one more request must work. Non-trivial = at least one future was dropped; distinct = distinct event-log hash Over the real transports one run in six abandons the reply future returned by close() instead (it owns the session): the client calls close() with its requests outstanding and drops that future unpolled; every outstanding request must still get its own reply (on the local transport a killed cli helper loses its pipes, as a dead process does)",
     components: COMPONENTS_C18,
     assumptions: &["the server answers every request exactly once", "on the real transports a drop can only be placed between two deliveries of the peer (1 ms of virtual time apart), not between two polls of the client"],
     watchdog_s: 30,
